@@ -140,6 +140,12 @@ def main(tier: str, seed: int) -> int:
             dict(kinds=['linear', 'conv', 'act'], frozen=['none'],
                  max_leaves=3, max_depth=2, patterns=trees.PATTERNS[:3],
                  max_pat=1, share=False, segs=('a', 'ab', 'a_b')),
+            # homonyms: classes named `Linear` that are not torch.nn.Linear,
+            # before / after real ones
+            dict(kinds=['linear', 'homact', 'homlin', 'conv'],
+                 frozen=['none'], max_leaves=3, max_depth=1,
+                 patterns=trees.PATTERNS[4:5] + trees.PATTERNS[7:9],
+                 max_pat=1, share=False),
             # names wrappers and containers produce ("module", "0"), a name
             # that contains another one ("submodule"), patterns that refer
             # to them
@@ -175,6 +181,10 @@ def main(tier: str, seed: int) -> int:
                  frozen=['none', 'all'], max_leaves=4, max_depth=2,
                  patterns=trees.PATTERNS[:4], max_pat=1, share=True,
                  segs=('a', 'ab', 'a_b', 'b'), simulate=6000),
+            dict(kinds=['linear', 'homact', 'homlin', 'conv', 'linsub'],
+                 frozen=['none', 'part'], max_leaves=4, max_depth=2,
+                 patterns=trees.PATTERNS[4:5] + trees.PATTERNS[7:9],
+                 max_pat=2, share=True, simulate=4000),
             dict(kinds=['linear', 'conv', 'linsub', 'act', 'empty'],
                  frozen=['none', 'all'], max_leaves=4, max_depth=3,
                  patterns=trees.WRAP_PATTERNS, max_pat=2, share=True,
